@@ -238,6 +238,21 @@ def main():
         return 2
     want_props = set(filter(None, args.props.split(",")))
     results = []
+    # evidence files must describe runs on the unchanged tree: keep them aside
+    import shutil
+    import tempfile
+    keep = tempfile.mkdtemp(prefix="evidence-keep-", dir=os.path.join(VERIF, ".scratch") if os.path.isdir(os.path.join(VERIF, ".scratch")) else None)
+    shutil.copytree(os.path.join(VERIF, "evidence"), os.path.join(keep, "evidence"))
+    try:
+        return run_all(args, want_props, results)
+    finally:
+        shutil.rmtree(os.path.join(VERIF, "evidence"), ignore_errors=True)
+        shutil.copytree(os.path.join(keep, "evidence"), os.path.join(VERIF, "evidence"))
+        shutil.rmtree(keep, ignore_errors=True)
+        shutil.rmtree(os.path.join(VERIF, "replays", "found"), ignore_errors=True)
+
+
+def run_all(args, want_props, results):
     for m in M:
         if args.only and args.only not in m["name"]:
             continue
